@@ -8,7 +8,7 @@ from ..ref import jwk as rjwk, jws as rjws, jwe as rjwe, b64
 from ..ref.jwa import JWS_KTY, ENC, jws_sign
 from ..history import bfs, canon_obj, canon_modules
 from ..explorer import Stats
-from .common import Outcome, Part, viol, call
+from .common import Outcome, Part, viol, call, handed_over, COPY_FORMS
 from . import c16
 
 LEVEL = "model_checking"
@@ -79,11 +79,14 @@ def is_unsupported_error(exc):
     return isinstance(exc, UnsupportedAlgorithmError)
 
 
+REGISTRY_COPIES = ["registry-" + f for f in COPY_FORMS]
+
+
 def h_jws(ctx):
     from joserfc import jws, jwt, rfc7797
     name = ctx.choose("alg", JWS_SUPPORTED + NEAR[:4] + LOOKALIKE["jws"] + NONSTR)
     form = ctx.choose("allow_list", LFORMS)
-    how = ctx.choose("given_as", ["algorithms", "algorithms-as-tuple", "algorithms-as-frozenset", "registry", "registry+empty-algorithms", "plain-jws-registry", "plain-jws-registry-nonstrict"])
+    how = ctx.choose("given_as", ["algorithms", "algorithms-as-tuple", "algorithms-as-frozenset", "registry", "registry+empty-algorithms", "plain-jws-registry", "plain-jws-registry-nonstrict"] + REGISTRY_COPIES)
     op = ctx.choose("operation", ["sign", "verify"])
     path = ctx.choose("path", ["compact", "flattened", "general", "7797-compact", "7797-flattened", "jwt"])
     if how.startswith("plain") and not path.startswith("7797"):
@@ -103,6 +106,10 @@ def h_jws(ctx):
         if how.startswith("algorithms-as-"):
             # the same names in another container: no less an explicit list
             return {"algorithms": None if L is None else (tuple(L) if how.endswith("tuple") else frozenset(L))}
+        if how in REGISTRY_COPIES:
+            # the registry is a copy (copy / pickle protocols) of the one the caller configured - of the default one where there is no list
+            cls = rfc7797.JWSRegistry if seven else jws.JWSRegistry
+            return {"registry": handed_over(cls(algorithms=copy.copy(L)) if L is not None else cls(), how[len("registry-"):])}
         if L is None:
             return {"registry": None}
         if how == "registry+empty-algorithms":
@@ -189,7 +196,7 @@ def h_jwe(ctx):
     else:
         name = ctx.choose("name", ["DEF", "def", "GZIP", "", "A128GCM"] + LOOKALIKE["zip"] + NONSTR)
     form = ctx.choose("allow_list", LFORMS)
-    how = ctx.choose("given_as", ["algorithms", "algorithms-as-tuple", "registry", "registry+empty-algorithms", "algorithms+default-JWERegistry"])
+    how = ctx.choose("given_as", ["algorithms", "algorithms-as-tuple", "registry", "registry+empty-algorithms", "algorithms+default-JWERegistry"] + REGISTRY_COPIES)
     op = ctx.choose("operation", ["encrypt", "decrypt"])
     path = ctx.choose("path", ["compact", "flattened", "general", "jwt"])
     if how == "algorithms+default-JWERegistry" and path != "jwt":
@@ -225,6 +232,8 @@ def h_jwe(ctx):
             return {"algorithms": copy.copy(L)}
         if how == "algorithms-as-tuple":
             return {"algorithms": None if L is None else tuple(L)}
+        if how in REGISTRY_COPIES:
+            return {"registry": handed_over(jwe.JWERegistry(algorithms=copy.copy(L)) if L is not None else jwe.JWERegistry(), how[len("registry-"):])}
         if how == "registry+empty-algorithms":
             return {"registry": jwe.JWERegistry(algorithms=copy.copy(L)) if L is not None else None, "algorithms": []}
         if how == "algorithms+default-JWERegistry":
@@ -292,6 +301,7 @@ def h_jwe_multi(ctx):
     form = ctx.choose("allow_list", ["absent", "explicit", "explicit+other"])
     how = ctx.choose("given_as", ["algorithms", "registry", "registry verify_all_recipients=False", "registry strict_check_header=False"])
     enc = ctx.choose("enc", ["A128GCM", "A128CBC-HS256"])
+    holds = ctx.choose("decryptor_holds", ["a key for every entry", "no key for the other entry"])
     good = ("A128KW", "oct16")
     entries = [None, None]
     entries[pos] = (oalg, okind, "other")
@@ -311,10 +321,18 @@ def h_jwe_multi(ctx):
     allowed = usable(name, L, JWE_ALG_SUP, JWE_REC, True)
     kw = {"algorithms": copy.copy(L)} if how == "algorithms" else {"registry": jwe.JWERegistry(
         algorithms=copy.copy(L), verify_all_recipients="verify_all" not in how, strict_check_header="strict_check" not in how)}
+    if holds != "a key for every entry":
+        # the entry made with the other algorithm is addressed to someone whose key this recipient does not have
+        privs = [privs[1 - pos], A.jkey({**scen.key("oct16", 9), "kid": "unrelated"}, "dict")]
     r = call(lambda: bytes(jwe.decrypt_json(tok.wire(), KeySet(privs), **kw).plaintext))
     vs = []
-    what = f"general JSON, entry {pos} names alg={name!r} (made with {oalg}), the other entry A128KW, enc={enc}; allow-list {L!r} given as {how}"
+    what = f"general JSON, entry {pos} names alg={name!r} (made with {oalg}), the other entry A128KW, enc={enc}; allow-list {L!r} given as {how}; the recipient holds {holds}"
     cls = "non-string" if not isinstance(name, str) else ("unknown" if name not in JWE_ALG_SUP else name.split("+")[0])
+    if holds != "a key for every entry":
+        # whether a token with an entry for somebody else opens at all is not this property's business; that it does not open past the allow-list is
+        if not allowed and r.ok:
+            vs.append(viol(f"JWE decrypt succeeds although a recipient entry names an alg the caller did not allow [{cls}, list {form}, {how}, entry for somebody else]", f"{what}: returned {r.value!r}"))
+        return Outcome(f"multi-foreign:{'ok' if r.ok else 'rej'}:{'allowed' if allowed else 'not-allowed'}", vs, nontrivial=(oalg, repr(name), pos, form, how, enc, holds))
     if allowed:
         if not r.ok or r.value != b"secret":
             vs.append(viol(f"JWE decrypt fails although every recipient entry names an allowed alg [{cls}, {how}]", f"{what}: {r.exc!r}"))
